@@ -114,6 +114,35 @@ def run(ctx):
                               % (short(c), short(n)))
     ctx.finish_rule()
 
+    # ------------------------------------------------------------------ R1x: no rejection of a sub-command's own after validation
+    ctx.rule("C07.R1x", "once the shared validation has succeeded, a sub-command raises no rejection of its own", floor=4)
+    from ..stages import adhoc_fns, adhoc_in_call
+    adhoc = adhoc_fns(prog)
+    for n, f in sorted(prog.fns.items()):
+        if f.bkind != "fn" or not n.startswith("bin::") or n == "bin::assemble":
+            continue
+        for b, t, c in f.calls():
+            if c is None or not (c in sa.may and c.startswith("bin::")):
+                continue
+            okt = kit.ok_target_of_call(f, b)
+            if okt is None:
+                continue
+            ctx.instance(1)
+            after = f.reachable(okt)
+            bad = []
+            for bb in sorted(after):
+                tt = f.term(bb)
+                if tt["k"] == "call":
+                    w = adhoc_in_call(prog, adhoc, tt)
+                    if w:
+                        bad.append((bb, w))
+            ctx.oblig(not bad, {"after `%s` succeeded in" % short(c): short(n), "own rejections": len(bad)}, "no ad-hoc error constructed on the success side")
+            for bb, w in bad:
+                ctx.violation("own-rejection|fn=%s" % short(n), sp_file_line(f.term(bb).get("sp")),
+                              "`%s` constructs an error of its own (%s) after `%s` has accepted the source: this sub-command then rejects "
+                              "a source the others accept" % (short(n), short(w), short(c)))
+    ctx.finish_rule()
+
     # ------------------------------------------------------------------ R2: init dominates every flag reader
     ctx.rule("C07.R2", "features::init dominates every call that can reach the feature-flag accessor", floor=4)
     ctx.fn(INIT)
